@@ -94,6 +94,16 @@ func c06SplitX(c *core.Ctx, cmem, long bool) {
 	}
 	run := GenRun(model, c.R, N, N, N, T, wc)
 	kind, splits := splitSchedule(c.R, T)
+	emptyWindow := false
+	if !long && c.R.Bool(0.12) && EmptySeriesOK(model) {
+		// an empty window in the chain (a hot-start caller whose period is empty): a split point that coincides with
+		// another one, with the start or with the end. No timestep runs in it, the states pass through.
+		cand := append(append([]int{0}, splits...), T)
+		splits = append(splits, cand[c.R.Intn(len(cand))])
+		sort.Ints(splits)
+		kind += "+empty"
+		emptyWindow = true
+	}
 	hot := c.R.Bool(0.5)
 	if long {
 		// a few long segments
@@ -119,6 +129,9 @@ func c06SplitX(c *core.Ctx, cmem, long bool) {
 	}
 	c.Begin(map[string]interface{}{"model": model, "run": run, "splits": splits, "warmup_for_hot_states": warm, "segments_on_c_memory": cmode})
 	c.Class(fmt.Sprintf("%s/N%d/%s/hot%v/T%d/c%v", model, N, kind, hot, T/20, cmem))
+	if emptyWindow {
+		c.Tag("split:empty-window")
+	}
 	if hot {
 		wo, err := Execute(warm)
 		if err != nil {
